@@ -488,12 +488,62 @@ def run(rep, tier):
                     for x in sub(s):
                         if x['k'] == 'StringLiteral' and 'str' in x:
                             feats.add('eq:' + x['str'])
-            star = 'ends:*' in feats or 'ends:.*' in feats
+            # like nameMatch: ONE trailing "*" is dropped, then one trailing "."; stripping only ".*" leaves the token "*" (a wildcard
+            # among several descriptors) to be looked up literally, where it matches nothing
+            star = 'ends:*' in feats
             dot = 'ends:.' in feats
             sig = '%s|getWordsWithPrefix' % f.q
             rep.check(star and dot, 'R12.4', sig, locstr(n),
-                      'descriptor normalisation before the trie lookup: features %s -> trailing "*"/".*" %s, trailing "." %s' % (
-                          sorted(feats), 'stripped' if star else 'NOT stripped (only exact "*" handled)' if 'eq:*' in feats else 'NOT stripped', 'stripped' if dot else 'NOT stripped'))
+                      'descriptor normalisation before the trie lookup: features %s -> a trailing "*" %s, trailing "." %s' % (
+                          sorted(feats), 'is stripped from every token' if star else 'is NOT stripped per token (only ".*" / the whole attribute being "*"): event="foo *" resolves to `false || _event == FOO`, the interpreter matches everything', 'stripped' if dot else 'NOT stripped'))
     rep.minimum('R12.4', sites, 2, 'trie lookups of event-attribute tokens (Promela, VHDL)')
 
     trie_rules(rep, fb, 'R12.5', 'R12.6')
+
+    # ---- R12.9 eventless means "no event attribute", not "empty event attribute"
+    rep.rule('R12.9', 'a transition is eventless iff it has no event attribute: the engines decide it from the type bit set from the attribute\'s presence (as the generated C and the Promela model do), not from the length of the descriptor string (event="" names no event and matches nothing)')
+    n9 = 0
+    fb9 = facts.FactBase(['src/uscxml/interpreter/LargeMicroStep.cpp', 'src/uscxml/interpreter/FastMicroStep.cpp'])
+    for eq in ('uscxml::LargeMicroStep::step', 'uscxml::FastMicroStep::step'):
+        f9 = fb9.fn(eq)
+        by_size = []
+        for n in f9.walk():
+            if n['k'] == 'BinaryOperator' and n.get('op') in ('==', '!=', '>') and tab.const_of(n['c'][1]) == 0:
+                l = strip(n['c'][0])
+                if l is not None and l['k'] == 'CXXMemberCallExpr' and l.get('callee', {}).get('q', '').split('::')[-1] in ('size', 'length', 'empty') and any(
+                        x['k'] == 'MemberExpr' and x['ref'].get('name') == 'event' and 'Transition' in (x['ref'].get('rec') or '') for x in sub(l)):
+                    by_size.append(n)
+        by_bit = [n for n in f9.walk() if any(m[0] == 'USCXML_TRANS_SPONTANEOUS' for m in (n.get('mac') or []))]
+        n9 += 1
+        rep.check(not by_size and bool(by_bit), 'R12.9', eq.split('::')[1] + '|eventless test', locstr(by_size[0]) if by_size else f9.where(), 'the selection classifies a transition as eventless %s' % (
+            'by the SPONTANEOUS type bit' if not by_size and by_bit else 'by the LENGTH of its descriptor string (%d tests): <transition event=""> is taken as an eventless transition (and loops forever when targetless), the generated C and Promela never enable it' % len(by_size)))
+    rep.minimum('R12.9', n9, 2, 'engines')
+    # ---- R12.10 names derived from event names for the VHDL back-end
+    rep.rule('R12.10', 'statically resolved matches keep event names apart: escapeMacro (signal names) writes every character of the name in place, appending strings or characters only (an integer appended to a std::string is narrowed to one byte), and toBinStr (event codes) emits the digits 0 and 1 only and pads to the full margin')
+    fbS = facts.FactBase(['src/uscxml/util/String.cpp'])
+    em = fbS.fn('uscxml::escapeMacro')
+    narrowed = [n for n in em.walk() if n['k'] == 'CXXOperatorCallExpr' and n.get('op') == '+=' and len(n['c']) > 2 and n['c'][2]['k'] == 'ImplicitCastExpr' and n['c'][2].get('ck') == 'IntegralCast' and
+                (n['c'][2].get('t') or '') == 'char']
+    rets = {x['ref'].get('lid') for n in em.walk() if n['k'] == 'ReturnStmt' and n.get('c') for x in sub(n['c'][0]) if x['k'] == 'DeclRefExpr' and 'lid' in x.get('ref', {})}
+    aside = []
+    for lp in em.walk():
+        if lp['k'] in ('ForStmt', 'CXXForRangeStmt', 'WhileStmt'):
+            for n in sub(lp['c'][-1]):
+                if n['k'] == 'CXXOperatorCallExpr' and n.get('op') == '+=' and strip(n['c'][1]) is not None and strip(n['c'][1])['k'] == 'DeclRefExpr' and strip(n['c'][1])['ref'].get('lid') not in rets and 'string' in (strip(n['c'][1]).get('t') or ''):
+                    aside.append(n)
+    rep.check(not narrowed and not aside, 'R12.10', 'escapeMacro', locstr((narrowed or aside or [em.d['body']])[0]) if (narrowed or aside) else em.where(), 'escapeMacro %s' % (
+        'writes every character in place' if not narrowed and not aside else 'collects the special characters aside%s: "a.bc" and "ab.c" become the same signal name, names with two dots get a control byte inside the identifier' % (
+            ' and appends an INTEGER (narrowed to one byte) to the name' if narrowed else '')))
+    tb_ = fbS.fn('uscxml::toBinStr')
+    bad_digit = []
+    for n in tb_.walk():
+        if n['k'] == 'BinaryOperator' and n.get('op') == '+' and any(x['k'] == 'CharacterLiteral' and x.get('int') == ord('0') for x in sub(n)):
+            other = [c_ for c_ in n['c'] if not any(x['k'] == 'CharacterLiteral' for x in sub(c_))]
+            for o in other:
+                inner = [x for x in sub(o) if x['k'] == 'BinaryOperator' and x.get('op') == '&']
+                if inner and not any(tab.const_of(x['c'][1]) == 1 for x in inner) and not any(x['k'] == 'BinaryOperator' and x.get('op') in ('!=', '==', '>') for x in sub(o)):
+                    bad_digit.append(n)
+    pad_loops = [lp for lp in tb_.walk() if lp['k'] in ('ForStmt', 'WhileStmt') and any(x.get('callee', {}).get('q', '').split('::')[-1] == 'size' for x in sub(lp['c'][2] if lp['k'] == 'ForStmt' and len(lp['c']) > 2 and lp['c'][2] is not None else lp['c'][0])) and any(
+        x['k'] == 'CXXOperatorCallExpr' and x.get('op') in ('=', '+=') for x in sub(lp['c'][-1]))]
+    rep.check(not bad_digit and not pad_loops, 'R12.10', 'toBinStr', locstr((bad_digit or pad_loops)[0]) if (bad_digit or pad_loops) else tb_.where(), 'toBinStr %s' % (
+        'emits binary digits and pads to the margin' if not bad_digit and not pad_loops else 'adds the masked VALUE (2, 4, 8 ..) to the character 0 and pads in a loop whose bound shrinks as the string grows: with three or more events the codes are "020", "0400" - no bit strings'))
